@@ -847,3 +847,20 @@ def engine_wake(tier, seed):
     if not res['errors']:
         cache_put(key, res)
     return res
+
+
+ABI_CFG = """SPECIFICATION Spec
+INVARIANTS
+    WellFormed
+    ExportCase
+CHECK_DEADLOCK FALSE
+"""
+
+
+def engine_abi(tier, seed):
+    """C13: the request-encoding table Abi.tla, one replayed case per operation x
+    descriptor kind x argument tuple."""
+    res = engine_cases('abi', 'MC_Abi', ABI_CFG, 'replay_abi', tier, seed, model='Abi')
+    for d in res['divergences']:
+        d['tag'] = 'C13'
+    return res
